@@ -30,17 +30,18 @@ def evidence(c):
         rule=('one generated op = one library call with literal arguments (60% from site-directed generators for the printf engine\'s %L?/%a/%ls paths, '
               'the wide-printf no-space probe, normalisation scratch / combining-sequence growth and the case-folding compares; 20% from the families that '
               'can allocate; 20% from the whole API so that new allocation sites are found). Each op is run fault-free (request count n, reference result, '
-              'leak check) and then re-executed from identical memory for every k=1..n with the k-th request failing once and failing from k on, plus up to 3 '
-              'sampled pairs (k1,k2). evaluations = executions (fault-free + faulted). distinct_nontrivial = distinct (op, fault) cases, by hash of the '
-              'explicit case text, in which an injected failure was actually reached; union over workers. The k dimension is enumerated, the input '
-              'dimension is seeded search'),
+              'leak check) and then re-executed from identical memory with: everything from the k-th request on failing, for every k <= n; the k-th request '
+              'alone failing, for every k <= n; and, adaptively, every such pattern extended by one more failing request among those the faulted execution '
+              'actually made (retries, fallbacks, clean-up that allocates), up to 3 failures and 48 patterns per op. evaluations = executions (fault-free + '
+              'faulted). distinct_nontrivial = distinct (op, failure pattern) cases, by hash of the explicit case text, in which an injected failure was '
+              'actually reached; union over workers. The failure-position dimension is enumerated, the input dimension is seeded search'),
         samples=samples,
         ops_generated=st.get('ops', 0),
         ops_that_allocate=st.get('alloc_ops', 0),
         fault_free_executions=st.get('dry', 0),
         faulted_executions=st.get('faulted', 0),
         faulted_executions_where_failure_was_hit=st.get('hit', 0),
-        pair_cases=st.get('pairs', 0),
+        executions_with_two_or_more_failed_requests=st.get('pairs', 0),
         outcomes=dict(failure_reported_and_dest_cleared=st.get('out_fail_clean', 0), success_identical_to_fault_free=st.get('out_success_same', 0)),
         leak_checks=st.get('leak_checks', 0) + st.get('faulted', 0),
         requests_per_call_histogram=st.get('nalloc_hist', {}),
